@@ -821,6 +821,21 @@ func (e *Env) callExpr(n *ast.CallExpr) Val {
 		}
 		sc, ss := u.chanElemComp(ct)
 		return Val{T: sel(u.comp(e.heap, sc, ss), c.T), Ty: &seqType{elem: ct.Elem()}, S: arrSort("Int", so.sortOf(ct.Elem()))}
+	case "argreal", "argint", "argstr":
+		// element k of a variadic ...interface{} argument, unboxed
+		sl, k := arg(0), arg(1)
+		c, cs := "E_iface", arrSort("Int", arrSort("Int", "Iface"))
+		el := sel(sel(u.comp(e.heap, c, cs), app("s_arr", sl.T)), iadd(app("s_off", sl.T), k.T))
+		switch name {
+		case "argreal":
+			u.declFun("box_float64", "(Real) Int")
+			u.declFun("unbox_float64", "(Int) Real")
+			return Val{T: app("unbox_float64", app("i_val", el)), Ty: types.Typ[types.Float64], S: "Real"}
+		case "argint":
+			return e.ival(app("i_val", el))
+		default:
+			return Val{T: app("i2str", app("i_val", el)), Ty: types.Typ[types.String], S: "Str"}
+		}
 	case "typeis":
 		v := arg(0)
 		lit, ok := n.Args[1].(*ast.BasicLit)
